@@ -164,6 +164,14 @@ class Recorder:
                 text = i
         if info.text not in (b'', None) and text == 0:
             text = -1
+        # what the object says about its TXT in its other forms agrees with the TXT it reports (read on every return, so that a
+        # second lookup with the same object meets whatever the first one left memoised)
+        try:
+            fresh = AsyncServiceInfo(TYPE, INST, 0, properties=info.text or b'')
+            if dict(info.properties) != dict(fresh.properties) or dict(info.decoded_properties) != dict(fresh.decoded_properties):
+                text = -2
+        except Exception:  # noqa: BLE001
+            text = -2
         addrs = []
         for a in info.addresses_by_version(__import__('zeroconf').IPVersion.All):
             hit = [i for i, v in VOCAB.items() if v[3] in ('a', 'aaaa') and v[2] == a]
